@@ -213,6 +213,8 @@ var funcSpecs = []funcSpec{
 	{rel: "cmd/age", name: "encryptPass", abstract: []string{"main.passphrasePromptForEncryption", "age.NewScryptRecipient", "main.testOnlyConfigureScryptIdentity", "main.encrypt"}, exits: []string{"main.errorf"}, world: true,
 		opaque: map[string]string{"age.Recipient": "ρ", "age.ScryptRecipient": "ρ", "io.Writer": "ζ", "tapeτ": "τ"}},
 	{rel: "cmd/age", name: "(rejectScryptIdentity).Unwrap", exits: []string{"main.errorWithHint"}},
+	{rel: "cmd/age", name: "encryptNotPass", abstract: []string{"main.parseRecipient", "main.parseRecipientsFile", "main.parseIdentitiesFile", "main.identitiesToRecipients", "plugin.NewIdentityWithoutData", "main.encrypt"}, exits: []string{"main.errorf", "main.errorWithHint"}, world: true,
+		opaque: map[string]string{"age.Recipient": "ρ", "plugin.Recipient": "ρ", "age.Identity": "ι", "plugin.Identity": "ι", "plugin.ClientUI": "υ", "io.Writer": "ζ", "tapeτ": "τ"}},
 	{rel: "", name: "aeadEncrypt", abstract: []string{"chacha20poly1305.New"}, opaque: map[string]string{"cipher.AEAD": "α"}},
 	{rel: "", name: "aeadDecrypt", abstract: []string{"chacha20poly1305.New"}, opaque: map[string]string{"cipher.AEAD": "α"}},
 	{rel: "agessh", name: "aeadEncrypt", abstract: []string{"chacha20poly1305.New"}, opaque: map[string]string{"cipher.AEAD": "α"}},
@@ -325,6 +327,7 @@ type fctx struct {
 	deferred     []ast.Stmt // bodies of `defer func() { … }()` statements passed so far (function level only)
 	tapeVar      *types.Var // the explicit crypto/rand state (funcSpec.tape)
 	logN         int        // log sites passed so far (funcSpec.logs)
+	poisoned     map[*types.Var]bool // variables bound by an error type test: never evaluated
 	printfN      int        // printf-like call sites of threaded abstract callees passed so far
 	hoisted      map[*types.Var]bool     // locals of a branch that a deferred closure of that branch uses: declared at the top of the function
 	condDefer    map[*ast.DeferStmt]string // a `defer` inside a branch -> the flag that records whether it was registered
@@ -816,6 +819,9 @@ func (c *fctx) expr(e ast.Expr) string {
 		case *types.Nil:
 			c.fail(e, "nil in a position where its type is not known to the translator")
 		case *types.Var:
+			if c.poisoned[o] {
+				c.fail(e, "the value bound by an error type test is used outside a call that ends the process")
+			}
 			if o.Parent() == c.fi.Pkg.Types.Scope() {
 				return c.t.global(c, x, o)
 			}
@@ -2563,6 +2569,70 @@ func (c *fctx) fuelExpr(at ast.Node, fuel string, cond ast.Expr) string {
 	return fuel
 }
 
+// errTypeTest recognises `if x, ok := err.(T); ok { exit calls only }` (no else); returns the name errors of type T carry
+func (c *fctx) errTypeTest(st *ast.IfStmt) (string, *types.Var, bool) {
+	as, ok := st.Init.(*ast.AssignStmt)
+	if !ok || st.Else != nil || as.Tok != token.DEFINE || len(as.Lhs) != 2 || len(as.Rhs) != 1 {
+		return "", nil, false
+	}
+	ta, ok := as.Rhs[0].(*ast.TypeAssertExpr)
+	if !ok || ta.Type == nil || !isErrorType(c.typeOf(ta.X)) {
+		return "", nil, false
+	}
+	okID, ok1 := as.Lhs[1].(*ast.Ident)
+	cond, ok2 := ast.Unparen(st.Cond).(*ast.Ident)
+	xID, ok3 := as.Lhs[0].(*ast.Ident)
+	if !ok1 || !ok2 || !ok3 || c.info().Defs[okID] == nil || c.info().Uses[cond] != c.info().Defs[okID] {
+		return "", nil, false
+	}
+	nt := namedOf(c.typeOf(ta.Type))
+	if nt == nil || nt.Obj().Pkg() == nil || c.t.pr.ByPath[nt.Obj().Pkg().Path()] == nil {
+		return "", nil, false
+	}
+	if _, isStruct := nt.Underlying().(*types.Struct); !isStruct {
+		return "", nil, false
+	}
+	for _, b := range st.Body.List {
+		es, ok := b.(*ast.ExprStmt)
+		if !ok {
+			return "", nil, false
+		}
+		call, ok := es.X.(*ast.CallExpr)
+		if !ok {
+			return "", nil, false
+		}
+		f, _ := c.fi.Pkg.callee(call).(*types.Func)
+		isExit := false
+		if f != nil && f.Pkg() != nil && c.spec != nil {
+			for _, x := range c.spec.exits {
+				isExit = isExit || x == f.Pkg().Name()+"."+f.Name()
+			}
+		}
+		if !isExit {
+			return "", nil, false
+		}
+	}
+	xv, _ := c.info().Defs[xID].(*types.Var)
+	if xv == nil {
+		return "", nil, false
+	}
+	return nt.Obj().Pkg().Name() + "." + nt.Obj().Name(), xv, true
+}
+
+// mentionsPoisoned: e mentions a variable whose value the translation does not have (see errTypeTest)
+func (c *fctx) mentionsPoisoned(e ast.Node) bool {
+	found := false
+	ast.Inspect(e, func(n ast.Node) bool {
+		if id, ok := n.(*ast.Ident); ok {
+			if v, ok := c.info().Uses[id].(*types.Var); ok && c.poisoned[v] {
+				found = true
+			}
+		}
+		return !found
+	})
+	return found
+}
+
 // isLog: f is listed in funcSpec.logs
 func (c *fctx) isLog(f *types.Func) bool {
 	if f == nil || f.Pkg() == nil || c.spec == nil {
@@ -3011,6 +3081,9 @@ func (c *fctx) stmt(e *emitter, ind int, s ast.Stmt) {
 			for _, x := range c.spec.exits {
 				if x == f.Pkg().Name()+"."+f.Name() {
 					for _, a := range call.Args {
+						if c.mentionsPoisoned(a) {
+							continue // (reads of the fields / the text of an error value: cannot fault)
+						}
 						if c.partial(a) {
 							e.add(ind, "let _ := "+c.expr(a))
 						}
@@ -3234,6 +3307,15 @@ func (c *fctx) stmt(e *emitter, ind int, s ast.Stmt) {
 			e.add(ind, "-- the rest of the function is outside the translated fragment (funcSpec.stopAt)")
 			c.emitReturn(e, ind, c.retExpr(vals))
 			c.stopped = true
+			return
+		}
+		// `if x, ok := err.(T); ok { <calls that end the process> }` with T a struct type of the module used as an error: errors
+		// of such a type are identified by the type (errorOfStruct), so the test is a test of that; x itself (its fields) is
+		// only handed to the exit calls, whose arguments are not evaluated
+		if name, xv, ok := c.errTypeTest(st); ok {
+			e.add(ind, fmt.Sprintf("if (Go.errIsType %s %q) then", c.expr(st.Init.(*ast.AssignStmt).Rhs[0].(*ast.TypeAssertExpr).X), name))
+			c.poisoned[xv] = true
+			c.block(e, ind+1, st.Body.List)
 			return
 		}
 		if st.Init != nil {
@@ -3895,7 +3977,7 @@ func (t *ftr) translate(fi *FuncInfo, from *fctx, at ast.Node) string {
 		curOpaque = spec.opaque
 	}
 	defer func() { curOpaque = savedOpaque }()
-	c := &fctx{t: t, fi: fi, spec: spec, base: name, names: map[types.Object]string{}, used: map[string]bool{}, localViews: map[*types.Var]*view{}}
+	c := &fctx{t: t, fi: fi, spec: spec, base: name, names: map[types.Object]string{}, used: map[string]bool{}, localViews: map[*types.Var]*view{}, poisoned: map[*types.Var]bool{}}
 	sig := fi.Obj.Type().(*types.Signature)
 	c.findClosures()
 	// (a variadic parameter is the slice it is inside the function)
